@@ -401,7 +401,15 @@ func drawOps(t *core.Tape, spec *world.SchemaSpec, twin *jsonapi.Schema) []op {
 				return fmt.Sprintf("%d errors %q", len(errs), msgs)
 			}})
 		default:
-			ops = append(ops, op{"Rels", "Rels()", func(s *jsonapi.Schema) string { return fmt.Sprintf("%+v", s.Rels()) }})
+			ops = append(ops, op{"Rels", "Rels()", func(s *jsonapi.Schema) string {
+				var sb strings.Builder
+
+				for _, r := range s.Rels() {
+					fmt.Fprintf(&sb, "{%q.%q one=%v -> %q.%q one=%v} ", r.FromType, r.FromName, r.ToOne, r.ToType, r.ToName, r.FromOne)
+				}
+
+				return sb.String()
+			}})
 		}
 	}
 
